@@ -10,6 +10,8 @@ import Hw.Bitmap.RoundTripList
 import Hw.Bitmap.RoundTripTaskset
 import Hw.Bitmap.RoundTripHwloc
 import Hw.Bitmap.ScanCursorSafe
+import Hw.Bitmap.ScanCursorRefine
+import Hw.Bitmap.ScanCursorTransfer
 namespace Hw.Props.C04
 open Hw Hw.Bitmap
 
@@ -176,5 +178,60 @@ example : (Cursor.listSscanfC (str "1,x,2")).res = .fail ∧ (Cursor.listSscanfC
 example : (Cursor.tasksetSscanfC (str "0xf...f12")).log.writes = [((0 : Int), 1)] ∧
     (Cursor.tasksetSscanfC (str "0xf...f12")).log.ustr.length = 3 ∧ (Cursor.tasksetSscanfC (str "0xf...f12")).log.maxRead = 9 := by decide
 example : (Cursor.hwlocSscanfC (str "-1")).res = .ok [some 0xffffffffffffffff#64] false := by decide
+
+/-! ## 5. refinement: on a C string (`NoNul`: the bytes before the terminator) on which the structural model
+of `Hw.Bitmap.Scan` is defined (no sign character; list indexes < 2^21), the cursor-level model returns exactly
+the structural model's verdict and words.  Outside that domain the cursor-level model is still total and the
+theorems of section 4 still hold. -/
+
+theorem C04_sscanf_refines (s : List Byte) (hs : Cursor.NoNul s) (hsup : hwlocScan s ≠ .unsupported) :
+    (Cursor.hwlocSscanfC s).res.toScan = hwlocScan s := Cursor.hwlocSscanfC_refine s hs hsup
+
+theorem C04_list_sscanf_refines (s : List Byte) (hs : Cursor.NoNul s) (hsup : listScan s ≠ .unsupported) :
+    (Cursor.listSscanfC s).res.toScan = listScan s := Cursor.listSscanfC_refine s hs hsup
+
+theorem C04_taskset_sscanf_refines (s : List Byte) (hs : Cursor.NoNul s) (hsup : tasksetScan s ≠ .unsupported) :
+    (Cursor.tasksetSscanfC s).res.toScan = tasksetScan s := Cursor.tasksetSscanfC_refine s hs hsup
+
+/-- `hwloc_bitmap_sscanf` returns (0 or -1) on every C string: its `assert(count > 0)` never fires
+(the other two parsers contain no assert: their models have no such outcome by construction) -/
+theorem C04_sscanf_returns (s : List Byte) (hs : Cursor.NoNul s) :
+    (Cursor.hwlocSscanfC s).res = .fail ∨ ∃ ws inf, (Cursor.hwlocSscanfC s).res = .ok ws inf := by
+  have h1 := Cursor.hwlocSscanfC_no_assert s hs
+  cases h : (Cursor.hwlocSscanfC s).res with
+  | ok ws inf => exact Or.inr ⟨ws, inf, rfl⟩
+  | fail => exact Or.inl rfl
+  | assertFail => exact (h1 h).elim
+  | okBig => exact (Cursor.hwlocSscanfC_not_big s h).elim      -- produced by the list parser only
+
+/-- a returned 0 means every word of the destination was written (transfer of `C04_sscanf_*_defined`) -/
+theorem C04_cursor_defined (s : List Byte) (hs : Cursor.NoNul s) :
+    (hwlocScan s ≠ .unsupported → (Cursor.hwlocSscanfC s).res.toScan.defined = true) ∧
+    (listScan s ≠ .unsupported → (Cursor.listSscanfC s).res.toScan.defined = true) ∧
+    (tasksetScan s ≠ .unsupported → (Cursor.tasksetSscanfC s).res.toScan.defined = true) :=
+  ⟨fun h => by rw [Cursor.hwlocSscanfC_refine s hs h]; exact hwlocScan_defined s,
+   fun h => by rw [Cursor.listSscanfC_refine s hs h]; exact listScan_defined s,
+   fun h => by rw [Cursor.tasksetSscanfC_refine s hs h]; exact tasksetScan_defined s⟩
+
+/-- round trip through the cursor-level (memory-safe) parsers: the printed text holds no NUL, is accepted, and
+denotes the same set -/
+theorem C04_cursor_roundtrip (b : Bitmap) (hinv : b.Inv) :
+    (∃ ws inf, (Cursor.hwlocSscanfC (text b.chunksHwloc)).res = .ok (ws.map some) inf ∧ ∀ n, (Bitmap.mk ws inf).mem n = b.mem n) ∧
+    (∃ ws inf, (Cursor.tasksetSscanfC (text b.chunksTaskset)).res = .ok (ws.map some) inf ∧ ∀ n, (Bitmap.mk ws inf).mem n = b.mem n) ∧
+    (b.count * 64 + 64 ≤ listMaxIndex →
+      ∃ ws inf, (Cursor.listSscanfC (text b.chunksList)).res = .ok (ws.map some) inf ∧ ∀ n, (Bitmap.mk ws inf).mem n = b.mem n) :=
+  ⟨Cursor.cursor_roundtrip_hwloc b hinv, Cursor.cursor_roundtrip_taskset b hinv, Cursor.cursor_roundtrip_list b hinv⟩
+
+/-! non-vacuity: strings meeting the hypotheses, one per format, incl. the F02 strings; and one outside the
+structural domain (sign) where only the cursor-level model answers -/
+example : Cursor.NoNul (str "0xf...f,,0x1") ∧ hwlocScan (str "0xf...f,,0x1") ≠ .unsupported ∧
+    (Cursor.hwlocSscanfC (str "0xf...f,,0x1")).res = .ok [some 0x1#64] true := by decide
+example : Cursor.NoNul (str "1,3-5, 64-") ∧ listScan (str "1,3-5, 64-") ≠ .unsupported ∧
+    (Cursor.listSscanfC (str "1,3-5, 64-")).res = .ok [some 0x3a#64, some 0xffffffffffffffff#64] true := by decide
+example : Cursor.NoNul (str "0xf...f12") ∧ tasksetScan (str "0xf...f12") ≠ .unsupported ∧
+    (Cursor.tasksetSscanfC (str "0xf...f12")).res = .ok [some 0xffffffffffffff12#64] true := by decide
+example : hwlocScan (str "+f,-2") = .unsupported ∧
+    (Cursor.hwlocSscanfC (str "+f,-2")).res = .ok [some 0xfffffffffffffffe#64] false := by decide
+example : (Cursor.listSscanfC (str "4194304")).big = true ∧ (Cursor.listSscanfC (str "4194304")).res = .okBig := by decide
 
 end Hw.Props.C04
